@@ -95,17 +95,21 @@ def sh(cmd, env=None, cwd=None, timeout=1800, stdin=None):
 _llgo_cache = {}
 
 
-def build_llgo(work, race=False, repo=None):
-    """Builds cmd/llgo from the working tree of REPO (hooks on: tags llvm14,verif,dev)."""
+def build_llgo(work, race=False, repo=None, extra_overlay=None):
+    """Builds cmd/llgo from the working tree of REPO (hooks on: tags llvm14,verif,dev).
+    extra_overlay: {path inside repo: replacement file} - further `go build -overlay` replacements (nothing is written to repo)."""
     repo = repo or REPO
-    key = (repo, race)
+    key = (repo, race, json.dumps(extra_overlay, sort_keys=True))
     if key in _llgo_cache:
         return _llgo_cache[key]
-    ovl = os.path.join(work.dir, "llgo-overlay.json")
+    tag = ("" if repo == REPO else "-" + h(repo)) + ("-x" + h(json.dumps(extra_overlay, sort_keys=True)) if extra_overlay else "")
+    ovl = os.path.join(work.dir, "llgo-overlay%s.json" % tag)
     with open(ovl, "w") as f:
-        json.dump({"Replace": {os.path.join(repo, "ssa", "zz_verif_llvm14.go"):
-                               os.path.join(TC, "ovl", "zz_verif_llvm14.go")}}, f)
-    out = os.path.join(work.dir, "llgo-race" if race else "llgo")
+        repl = {os.path.join(repo, "ssa", "zz_verif_llvm14.go"): os.path.join(TC, "ovl", "zz_verif_llvm14.go")}
+        for rel, src in (extra_overlay or {}).items():
+            repl[os.path.join(repo, rel)] = src
+        json.dump({"Replace": repl}, f)
+    out = os.path.join(work.dir, ("llgo-race" if race else "llgo") + tag)
     cmd = ["go", "build", "-tags", "llvm14,verif,dev", "-overlay", ovl, "-o", out]
     if race:
         cmd.append("-race")
